@@ -4,6 +4,7 @@
 (* is evaluated inside every state.  The laws of ChainAdmission are invariants; every state is exported (CASE)      *)
 (* with the specification's verdicts for every option combination, the option table once (OPTS).                   *)
 (* The hierarchy, the chains and the option table are those of ChainAdmissionWorld.                               *)
+(* MCChainAdmissionCfg.tla adds the options AS CONFIGURED (lists of names) on the chains that are in order.        *)
 EXTENDS ChainAdmissionWorld
 
 (* ---------- state ---------- *)
@@ -35,6 +36,8 @@ Case == LET okv == ChainOK(rc, TT)
             v == Val(okv)
         IN [ch |-> cs.ch, T |-> cs.T, tags |-> cs.tags, ok |-> okv,
             kind |-> IF rc[1].parses THEN Kind(rc[1]) ELSE "unparsable",
+            \* the search has to go past a trusted candidate that does not link
+            decoy |-> Decoys(rc, TT) # {},
             paths |-> IF okv THEN {Ids(p) : p \in Paths(rc, TT)} ELSE {},
             val |-> v, admC |-> Adm(okv, v, "add-chain"), admP |-> Adm(okv, v, "add-pre-chain")]
 Export == PrintT(<<"CASE", ToJson(Case)>>)
